@@ -61,6 +61,8 @@ GENERATORS = [
     # (name, script, outputs)
     ("upper", "gen/upper.py", ["coq/Gen/Upper.v"]),
     ("lex_table", "gen/lex_table.py", ["coq/Gen/LexTable.v", "coq/Gen/lextable.json"]),
+    ("schema", "gen/schema.py", ["coq/Gen/Schema.v"]),
+    ("static", "gen/static.py", ["coq/Gen/Static.v"]),
 ]
 
 
@@ -222,8 +224,7 @@ def forbidden_scan(files):
 
 def assumptions_of(propfile):
     """re-run coqc on Props/<x>.v (dependencies are built) and collect the Print Assumptions output"""
-    rc, out = sh(["coqc", "-Q", "Base", "Base", "-Q", "Gen", "Gen", "-Q", "Lex", "Lex", "-Q", "Props", "Props",
-                  "-Q", "Extract", "Extract"] + extra_q() + [propfile], cwd=COQ, timeout=900)
+    rc, out = sh(["coqc"] + all_q() + [propfile], cwd=COQ, timeout=900)
     blocks = []
     cur = None
     for line in out.splitlines():
